@@ -114,7 +114,8 @@ func (m c11Model) reaches(def string, target string) bool {
 func (m c11Model) apply(op c11Op, nextStreamID uint64) (reject bool) {
 	switch op.Op {
 	case "restart":
-		// converters of a tag whose definition refers to other tags are not attached again at start
+		// converters of a tag whose definition refers to other tags are not attached again at start (cannot happen
+		// any more: such a definition is refused while converters are attached)
 		for _, t := range m {
 			if len(c11Refs(t.Def)) != 0 {
 				t.Conv = map[string]bool{}
@@ -164,6 +165,9 @@ func (m c11Model) apply(op c11Op, nextStreamID uint64) (reject bool) {
 		}
 		if m.reaches(op.Arg, op.Name) {
 			return true
+		}
+		if len(t.Conv) != 0 && len(c11Refs(op.Arg)) != 0 {
+			return true // the attached converters could not stay attached to a definition that refers to other tags
 		}
 		t.Def = op.Arg
 		t.Marks = c11IDs(op.Arg)
